@@ -324,10 +324,58 @@ def gen_unpriv_vmsa(rng):
             'vmsa': {'domain': dom_kind}}
 
 
+def gen_unpriv_lpae(rng):
+    """long-descriptor tables: leaf AP[2:1] (pages and a 2 MiB block) combined with the hierarchical APTable bits of the table descriptor above"""
+    cfg = {'arch_version': 7, 'have_security_ext': rng.random() < 0.5, 'have_virt_ext': False, 'have_lpae': True, 'memory_system_architecture': 'VMSA'}
+    thumb = rng.getrandbits(1)
+    mode = rng.choice(['svc', 'irq', 'fiq', 'abt', 'und', 'sys'] + (['mon'] if cfg['have_security_ext'] else []))
+    devices = G.std_devices(rec_data=True)
+    G.set_data(devices[2], 0, bytes(rng.getrandbits(8) for _ in range(0x400)))
+    tables = {'kind': 'ram', 'begin': VM_TABLES, 'end': VM_TABLES + 0x4000}
+
+    def leaf(pa, ap2, page):
+        return pa | 1 << 10 | ap2 << 6 | (0b11 if page else 0b01)
+
+    def tbl(addr, apt=0):
+        return addr | apt << 61 | 0b11
+    apt = rng.choice([0, 0, 1, 2, 3])
+    G.set_data(tables, 0, tbl(VM_TABLES + 0x1000).to_bytes(8, 'little'))
+    G.set_data(tables, 24, leaf(0xC0000000, 1, False).to_bytes(8, 'little'))
+    G.set_data(tables, 0x1000, tbl(VM_TABLES + 0x2000).to_bytes(8, 'little'))
+    G.set_data(tables, 0x1008, tbl(VM_TABLES + 0x3000, apt).to_bytes(8, 'little'))
+    blk_ap = rng.randrange(4)
+    G.set_data(tables, 0x1010, leaf(0, blk_ap, False).to_bytes(8, 'little'))
+    for i in range(512):
+        G.set_data(tables, 0x2000 + 8 * i, leaf(i << 12, 1, True).to_bytes(8, 'little'))
+    aps = [rng.randrange(4) for _ in range(8)]
+    for j, ap2 in enumerate(aps):
+        G.set_data(tables, 0x3000 + 8 * j, leaf(G.DATA, ap2, True).to_bytes(8, 'little'))
+    devices.append(tables)
+    tests = []
+    for _ in range(12):
+        kind = rng.choice(UNPRIV)
+        off = 8 * rng.randrange(2, 100)
+        mis = rng.choice([0, 0, 0, 1, 2, 3])
+        if rng.random() < 0.25:
+            va, ap2, at = 0x400000 + G.DATA + off + mis, blk_ap, 0
+        else:
+            j = rng.randrange(8)
+            va, ap2, at = 0x200000 + 0x1000 * j + off + mis, aps[j], apt
+        tests.append({'kind': kind, 'rn_val': va, 'rt': rng.randrange(0, 8), 'rn': 8 + rng.randrange(0, 4), 'ap2': ap2, 'apt': at, 'pa': G.DATA + off + mis})
+    sys = {'sctlr': G.sctlr_value(m=1, a=0, u=1, te=thumb, tre=1, afe=0), 'ttbcr': 1 << 31 | 1 << 16, 'ttbr0_64': VM_TABLES, 'ttbr1_64': 0,      # T1SZ=1: TTBR0 translates the lower 2 GiB
+           'mair0': 0xFFFFFFFF, 'mair1': 0xFFFFFFFF}
+    cpsr = G.random_cpsr(rng, cfg, mode=mode, thumb=thumb) | 0x1C0
+    state = {'cpsr': cpsr, 'pc': G.CODE, 'sys': sys, 'R': G.random_regfile(rng, cfg), 'spsr': G.random_spsrs(rng, cfg)}
+    core = {'config': cfg, 'devices': devices, 'regs': state, 'words': [], 'force': None, 'no_poke': [VM_TABLES]}
+    return {'scenario': 'unpriv_ldst', 'cores': [core], 'tests': tests, 'thumb': thumb, 'events': [], 'max_ticks': 10 ** 6, 'stop_at_done': False,
+            'lpae': True}
+
+
 def gen(item, rng, tier):
     if item['k'] == 'user':
         return gen_user(rng)
-    return gen_unpriv_vmsa(rng) if rng.random() < 0.35 else gen_unpriv(rng)
+    k = rng.random()
+    return gen_unpriv_vmsa(rng) if k < 0.3 else (gen_unpriv_lpae(rng) if k < 0.45 else gen_unpriv(rng))
 
 
 # ------------------------------------------------------------------ execution
@@ -445,7 +493,15 @@ def run_unpriv(case):
     words = core['words']
     thumb = case['thumb']
     start = M.dump_state(arm)
-    regions = MPU.regions_from_arm(arm) if not case.get('vmsa') else []
+    regions = MPU.regions_from_arm(arm) if not (case.get('vmsa') or case.get('lpae')) else []
+
+    class Last:
+        rec = None
+
+        def on_tick(self, bb, rec):
+            self.rec = rec
+    last = Last()
+    b.observers = list(b.observers or []) + [last]
     mval = r.sctlr.m
     br = r.sctlr.br
     for tst in case['tests']:
@@ -464,10 +520,34 @@ def run_unpriv(case):
                 size = 4 if kind in ('ldrt', 'strt') else (1 if 'b' in kind[3:] and 'h' not in kind else 2)
             words.append(w)
             pre_mode = r.cpsr.value & 0x1F
+            before = (M.peek(arm, tst.get('pa', 0) & ~3, 8), r.get(tst['rt']))
+            last.rec = None
             b.advance()
             if b.cores[0].dead:
                 return b
             vm = case.get('vmsa')
+            if case.get('lpae'):
+                # long descriptors: leaf AP[2:1] restricted by the APTable bits of the table descriptor above; a refused access ends in the
+                # emulator's declared-unimplemented long-descriptor fault path (NotImplementedError) or in a Data Abort — either way nothing
+                # may be transferred
+                priv_acc = variant == 'plain'
+                user_ok = bool(tst['ap2'] & 1) and not (tst['apt'] & 1)
+                write_ok = not (tst['ap2'] & 2) and not (tst['apt'] & 2)
+                allowed = (priv_acc or user_ok) and (not write or write_ok)
+                refused = bool(last.rec and last.rec.get('nie')) or ((r.cpsr.value & 0x1F) == 0x17 and pre_mode != 0x17)
+                b.cover.add('unpriv|lpae|%s|%s|ap%d|apt%d|%s|%s' % (kind, variant, tst['ap2'], tst['apt'], 'w' if write else 'r', 'refused' if refused else 'ok'))
+                b.count('fault.mpu-deny' if not allowed else 'probe.mpu-allow')
+                if allowed == refused:
+                    b.violate('unpriv.mpu_model', kind if variant == 'unpriv' else 'plain:' + kind, 'missing_abort' if not allowed else 'spurious_abort',
+                              '%s %s at %#x in mode %#x (long descriptors, leaf AP[2:1]=%d, APTable=%d): model says %s, access %s' % (
+                                  variant, kind, addr, pre_mode, tst['ap2'], tst['apt'], 'allowed' if allowed else 'refused', 'refused' if refused else 'performed'))
+                    return b
+                if refused:
+                    now = (M.peek(arm, tst['pa'] & ~3, 8), r.get(tst['rt']))
+                    if now != before:
+                        b.violate('unpriv.mpu_model', kind, 'data_transferred', '%s %s at %#x was refused but memory/Rt changed: %r -> %r' % (variant, kind, addr, before, now))
+                        return b
+                continue
             if vm:
                 # translation tables: every byte of the access lies in one page; the domain is client (AP checked) or manager (never checked)
                 a_ = None if vm['domain'] == 'manager' else vmsa_ap_abort(tst['ap'], variant == 'plain', write)
